@@ -17,6 +17,8 @@ import (
 	"sync/atomic"
 	"testing"
 	"time"
+
+	"go.opentelemetry.io/collector/featuregate"
 )
 
 // ---------------------------------------------------------------------------------------------
@@ -272,6 +274,7 @@ type vCase struct {
 	wantc         []vWantC
 	wants         []vWant        // whole-value references whose original text every string-kind target must show
 	inline        map[int]string // entry index -> YAML text that IS the location ("vyaml:<text>"); srcs[i] is its parsed form
+	appendGate    bool           // Resolve runs with the confmap.enableMergeAppendOption feature gate on (lists are appended, de-duplicated)
 }
 
 type vWantX struct {
@@ -440,6 +443,43 @@ func vSpecMerge(dst, src map[string]any) map[string]any {
 	return out
 }
 
+// independent statement of the gate-on merge: maps merge key by key, two lists become the old list followed by the new
+// elements that are not (structurally) in it yet, anything else is replaced by the later source
+func vSpecMergeAppend(dst, src map[string]any) map[string]any {
+	out := make(map[string]any, len(dst))
+	for k, v := range dst {
+		out[k] = vClone(v)
+	}
+	for k, sv := range src {
+		dv, ok := out[k]
+		sm, sIsMap := sv.(map[string]any)
+		dm, dIsMap := dv.(map[string]any)
+		sl, sIsList := sv.([]any)
+		dl, dIsList := dv.([]any)
+		switch {
+		case ok && sIsMap && dIsMap:
+			out[k] = vSpecMergeAppend(dm, sm)
+		case ok && sIsList && dIsList:
+			nl := append([]any{}, dl...)
+			for _, e := range sl {
+				seen := false
+				for _, x := range nl {
+					if vEnc(x) == vEnc(e) {
+						seen = true
+					}
+				}
+				if !seen {
+					nl = append(nl, vClone(e))
+				}
+			}
+			out[k] = nl
+		default:
+			out[k] = vClone(sv)
+		}
+	}
+	return out
+}
+
 func vAllStringsPlain(v any) bool {
 	switch x := v.(type) {
 	case string:
@@ -492,6 +532,10 @@ func (c *vCase) run(out *vOut, idx int) (stuck bool) {
 		envLine += " default=" + vHexS(c.defaultScheme)
 	}
 	out.Linef("%s", envLine)
+	if c.appendGate {
+		out.Linef("op gate 1")
+		out.Linef("stat append_gate_cases 1")
+	}
 	nprov := 0
 	for _, s := range vSchemes {
 		names := make([]string, 0, len(c.provs[s]))
@@ -579,6 +623,10 @@ func (c *vCase) run(out *vOut, idx int) (stuck bool) {
 	defer cancel()
 	done := make(chan struct{})
 	start := time.Now()
+	if c.appendGate {
+		_ = featuregate.GlobalRegistry().Set(enableMergeAppendOption.ID(), true)
+		defer func() { _ = featuregate.GlobalRegistry().Set(enableMergeAppendOption.ID(), false) }()
+	}
 	go func() {
 		defer close(done)
 		defer func() { panicked = recover() }()
@@ -636,7 +684,7 @@ func (c *vCase) run(out *vOut, idx int) (stuck bool) {
 		out.Linef("op wantexact %s %s", vHex(w.key), vEnc(w.want))
 	}
 	leaf := 0
-	if c.kind == "override" {
+	if c.kind == "override" || c.appendGate {
 		leaf = 1
 	}
 	dn := 0
@@ -666,6 +714,11 @@ func (c *vCase) run(out *vOut, idx int) (stuck bool) {
 	}
 	if panicked != nil {
 		out.Linef("obs res panic")
+		if c.appendGate && strings.Contains(fmt.Sprint(panicked), "not comparable") {
+			// mergeAppend's isPresent compared list elements with reflect.Value.Equal, which panics on map / list elements
+			out.Linef("viol sig=C12/mergeappend/panic-on-uncomparable-list-element %s", vHexS(fmt.Sprint(panicked)))
+			return
+		}
 		out.Linef("viol sig=C12/resolve/panic %s", vHexS(fmt.Sprint(panicked)))
 		return
 	}
@@ -818,7 +871,11 @@ func (c *vCase) run(out *vOut, idx int) (stuck bool) {
 			plain = false
 		}
 		if m, ok := s.(map[string]any); ok {
-			spec = vSpecMerge(spec, m)
+			if c.appendGate {
+				spec = vSpecMergeAppend(spec, m)
+			} else {
+				spec = vSpecMerge(spec, m)
+			}
 		} else if s != nil {
 			plain = false
 		}
@@ -827,6 +884,9 @@ func (c *vCase) run(out *vOut, idx int) (stuck bool) {
 		out.Linef("stat plain_merge_checked 1")
 		if vEnc(spec) != vEnc(strmap) {
 			sig := "C12/merge/not-right-biased-recursive-merge"
+			if c.appendGate {
+				sig = "C12/mergeappend/not-append-dedup-merge"
+			}
 			if len(c.srcs) <= 1 {
 				sig = "C12/literal/plain-text-changed"
 			}
@@ -1446,6 +1506,23 @@ func vCorpus() []*vCase {
 		c.kind = "dname"
 		c.dname = dv[1]
 	}
+	// 48-51: the gate-on list merge (confmap.enableMergeAppendOption): append + de-duplicate, duplicates inside the later
+	// list, list over scalar / map over list (replaced), nested; 50/51 with map and list ELEMENTS when VERIF_C12_APPEND_DEEP
+	deepM, deepL := any("scrape-a"), any("scrape-b")
+	if vAppendDeep() {
+		deepM, deepL = map[string]any{"job": "a", "targets": []any{"h:1"}}, []any{1, "x"}
+	}
+	for _, srcs := range [][]any{
+		{map[string]any{"extensions": []any{"a", "b"}, "x": 1, "s": "old", "n": 1}, map[string]any{"extensions": []any{"a", "c", "c", "b", nil, nil}, "x": []any{1}, "s": "new", "n": nil}},
+		{map[string]any{"s": map[string]any{"p": []any{"otlp", 1, true}, "q": []any{"z"}}}, map[string]any{"s": map[string]any{"p": []any{1, "1", "otlp", 1.5}, "q": "z"}},
+			map[string]any{"s": map[string]any{"p": []any{true, false}, "q": []any{"y"}}}},
+		{map[string]any{"scrape": []any{deepM, deepL, "x"}}, map[string]any{"scrape": []any{vClone(deepM), vClone(deepL), "y"}}},
+		{map[string]any{"l": []any{deepM, "${env:X}"}}, map[string]any{"l": []any{"foo", "${env:X}", deepL, vClone(deepM)}}, map[string]any{"l": []any{}}},
+	} {
+		c := mk("append", "", nil, nil)
+		c.appendGate = true
+		c.srcs = srcs
+	}
 	return cs
 }
 
@@ -1796,10 +1873,107 @@ func vGenDollarName(c *vCase, rnd *rand.Rand) {
 	c.tokOnly = false
 }
 
+// VERIF_C12_APPEND_DEEP=0 keeps map / list ELEMENTS out of the lists merged under the gate (on a tree without the
+// isPresent repair every such case is a panic: sig C12/mergeappend/panic-on-uncomparable-list-element)
+func vAppendDeep() bool { return vEnvInt("VERIF_C12_APPEND_DEEP", vAppendDeepDefault) != 0 }
+
+const vAppendDeepDefault = 1
+
+var vAppendKeys = []string{"l", "k0", "m", "x"}
+
+func vGenAppendElem(rnd *rand.Rand, pRef float64) any {
+	r := rnd.IntN(16)
+	if !vAppendDeep() && r >= 12 {
+		r = rnd.IntN(12)
+	}
+	switch {
+	case r < 5:
+		if rnd.Float64() < pRef {
+			return []string{"${env:A}", "x-${env:B}", "$$", "a$$b", "${env:E}"}[rnd.IntN(5)]
+		}
+		return []string{"a", "b", "c", "otlp", "", "a b"}[rnd.IntN(6)]
+	case r < 7:
+		return rnd.IntN(3)
+	case r < 8:
+		return rnd.IntN(2) == 0
+	case r < 9:
+		return float64(rnd.IntN(3)) / 2
+	case r < 10:
+		return nil
+	case r < 12:
+		return []string{"a", "b"}[rnd.IntN(2)]
+	case r < 14:
+		m := map[string]any{}
+		for i, n := 0, rnd.IntN(3); i < n; i++ {
+			m[[]string{"m", "n"}[rnd.IntN(2)]] = []any{1, "a", nil, []any{"a"}, map[string]any{"z": 1}}[rnd.IntN(5)]
+		}
+		return m
+	default:
+		l := []any{}
+		for i, n := 0, rnd.IntN(3); i < n; i++ {
+			l = append(l, []any{1, "a", nil}[rnd.IntN(3)])
+		}
+		return l
+	}
+}
+
+func vGenAppendValue(rnd *rand.Rand, depth int, pRef float64) any {
+	r := rnd.IntN(10)
+	switch {
+	case r < 6:
+		n := rnd.IntN(5)
+		l := make([]any, n)
+		for i := range l {
+			l[i] = vGenAppendElem(rnd, pRef)
+		}
+		return l
+	case r < 8 && depth > 0:
+		m := map[string]any{}
+		for i, n := 0, rnd.IntN(4); i < n; i++ {
+			m[vAppendKeys[rnd.IntN(len(vAppendKeys))]] = vGenAppendValue(rnd, depth-1, pRef)
+		}
+		return m
+	default:
+		return []any{"s", 1, nil, true, ""}[rnd.IntN(5)]
+	}
+}
+
+// vGenAppend: 2-4 sources over four colliding keys (depth <= 2) whose values are mostly LISTS drawn from a small element
+// pool (so elements recur within one list, across sources, and in different order), sometimes a map or a scalar under the
+// same key (different kinds: replaced); one in four cases has references / escapes in list elements; repeated locations.
+func vGenAppend(c *vCase, rnd *rand.Rand) {
+	c.appendGate = true
+	vGenProviders(c, rnd, 0.9)
+	pRef := 0.0
+	if rnd.IntN(4) == 0 {
+		pRef = 0.4
+	}
+	n := 2 + rnd.IntN(3)
+	for i := 0; i < n; i++ {
+		m := map[string]any{}
+		for j, k := 0, 1+rnd.IntN(3); j < k; j++ {
+			m[vAppendKeys[rnd.IntN(len(vAppendKeys))]] = vGenAppendValue(rnd, 2, pRef)
+		}
+		if rnd.IntN(15) == 0 {
+			c.srcs = append(c.srcs, nil)
+		}
+		c.srcs = append(c.srcs, m)
+	}
+	if rnd.IntN(3) == 0 {
+		vRepeat(c, rnd, false)
+	}
+}
+
 func vGenCase(idx int, rnd *rand.Rand) *vCase {
 	c := vNewCase()
 	if rnd.IntN(2) == 0 {
 		c.defaultScheme = "env"
+	}
+	if idx%7 == 2 && (idx/7)%4 == 0 {
+		// every fourth merge case runs with the confmap.enableMergeAppendOption gate on
+		c.kind = "append"
+		vGenAppend(c, rnd)
+		return c
 	}
 	switch idx % 7 {
 	case 6: // merge FIRST, then expand: later sources override keys whose earlier value is a reference
